@@ -83,3 +83,11 @@ CHECKS["C04"] = dict(
     assumptions=["the base ledger is reused across cases as long as its snapshot digest is unchanged (that is the oracle); a world is rebuilt after any admitted mutant",
                  "a vertex completely re-sealed by another node is a new vertex, not a mutation (as the statement says)"],
 )
+
+CHECKS["C14"] = dict(
+    test="TestC14", level="exploration",
+    common=dict(shrinktime="5s", env={"GOMEMLIMIT": "3GiB"}),
+    quick=dict(shards=12, checks=32, timeout=900),
+    thorough=dict(shards=16, checks=130, timeout=3000),
+    assumptions=_LEDGER_ASSUME + ["a well-formed/malformed verdict on a corrupted stream is recomputed by the harness from the statement's list; a parent-closed prefix of a stream is a smaller well-formed ledger"],
+)
